@@ -1,6 +1,8 @@
 package tqmon
 
 import (
+	"crypto/sha256"
+	"encoding/hex"
 	"fmt"
 	"math/rand"
 	"sort"
@@ -28,6 +30,12 @@ var Themes = []string{
 	"batch-hash-algo", "upload-missing-with-action", "upload-missing-no-action", "adapter-begin-error",
 	"dry-run", "adapter-422", "retry-later", "expired-action", "many-after-abort",
 	"dup-during-delivery", "exhausted-plus-fresh-in-failed-batch",
+	"real-first-storage-request-fails", "real-storage-faults", "real-none",
+}
+
+func sha256hex(b []byte) string {
+	h := sha256.Sum256(b)
+	return hex.EncodeToString(h[:])
 }
 
 func pick(r *rand.Rand, xs ...string) string { return xs[r.Intn(len(xs))] }
@@ -268,6 +276,34 @@ func Gen(seed int64, idx int, prof string) Case {
 		}
 		if r.Intn(2) == 0 {
 			c.AddGapUs = 500 + r.Intn(4000)
+		}
+	case "real-first-storage-request-fails", "real-storage-faults", "real-none":
+		// the built-in basic adapter (adapterBase workers, auth gate of worker 0, real HTTP transfers)
+		c.Real = true
+		c.ObjBatch = map[string][]string{}
+		c.ExtraUnknown = map[int]string{}
+		c.BatchCalls = nil
+		c.Adapter = map[string][]string{}
+		for i := range c.Objs {
+			c.Objs[i].MissingLocal = false
+			c.Objs[i].DataSeed = r.Int63()
+			c.Objs[i].Oid = sha256hex(Content(c.Objs[i].DataSeed, c.Objs[i].Size))
+		}
+		switch theme {
+		case "real-first-storage-request-fails":
+			c.StorageFirst = pick(r, "retry", "fatal", "reset", "later:1", "cut")
+			if c.Upload && c.StorageFirst == "cut" {
+				c.StorageFirst = "retry"
+			}
+			if r.Intn(3) > 0 && c.Concurrent < 2 {
+				c.Concurrent = 2 + r.Intn(7)
+			}
+		case "real-storage-faults":
+			kinds := []string{"ok", "ok", "retry", "fatal", "reset", "cut"}
+			if c.Upload {
+				kinds = []string{"ok", "ok", "retry", "fatal", "reset", "422"}
+			}
+			adapterFaults(kinds...)
 		}
 	case "adapter-begin-error":
 		c.BeginError = true
